@@ -181,4 +181,77 @@ theorem nw_recovery (w : NW) (r : Resp) :
 example : (({ out := [], failed := false } : BW).writes [([1, 2], .ok), ([3], .fail), ([4], .ok)]).2 = [false, true, false] := by decide
 example : (({ out := [], failed := false } : BW).writes [([1, 2], .ok), ([3], .fail), ([4], .ok)]).1.out = [1, 2] := by decide
 
+
+/-! ### the layers above the bottom writer across a rotation that throws (defects D17, D18)
+
+The file writer opens the new file *before* it reports that the old one could not be completed (`nw_recovery`: the writer it
+hands back is fresh).  The two layers above must leave themselves in a state that fits the new, healthy output although an
+exception passes through them. -/
+
+/-- what the layer below did when asked to rotate -/
+inductive Below where
+  | switched            -- new output open, returned normally
+  | switchedAndThrew    -- new output open, then the failure of the old one was reported
+  | refused             -- threw, no usable output (destination cannot be opened)
+  deriving DecidableEq, Repr
+
+/-- `GzipCborOutputWriter` / `XzCborOutputWriter`: `live` = the compressor state exists, `start` = `m_start_stream` -/
+structure CW where
+  live : Bool
+  start : Bool
+  deriving DecidableEq, Repr
+
+/-- `rotate_output`: `finish()` (may fail: the stream is released, nothing is rotated), then the layer below, then `open()` -/
+def CW.rotate (w : CW) (finishOk : Bool) (b : Below) : CW × Bool :=
+  if !finishOk then ({ w with live := false }, true)
+  else match b with
+    | .switched => ({ live := true, start := false }, false)
+    | _ => ({ live := false, start := true }, true)
+
+/-- `write`: `true` = the data goes into a compressed stream, `false` = it is dropped (failure already reported) -/
+def CW.write (w : CW) : CW × Bool :=
+  let w1 : CW := if w.start then { live := true, start := false } else w
+  (w1, w1.live)
+
+/-- the code before the repair: `open()` was simply skipped when the layer below threw -/
+def CW.rotateOld (w : CW) (finishOk : Bool) (b : Below) : CW × Bool :=
+  if !finishOk then ({ w with live := false }, true)
+  else match b with
+    | .switched => ({ live := true, start := false }, false)
+    | _ => ({ live := false, start := false }, true)
+
+/-- D18 repaired: whenever the old stream could be finished, the first data written after the rotation goes into a stream -
+    whether the layer below returned normally, threw after switching, or refused the destination (then the write fails below
+    and is reported there). -/
+theorem cw_write_after_rotation_is_not_dropped (w : CW) (b : Below) : ((w.rotate true b).1.write).2 = true := by
+  cases b <;> rfl
+
+/-- ... and the defect as it was: after "switched and threw" the data was dropped -/
+theorem cw_old_dropped : ∃ w : CW, ((w.rotateOld true .switchedAndThrew).1.write).2 = false := ⟨⟨true, false⟩, rfl⟩
+
+/-- a refused destination leaves no half-started stream behind: the next rotation's `finish()` has nothing to write to it -/
+theorem cw_refused_leaves_no_stream (w : CW) : (w.rotate true .refused).1.live = false := rfl
+
+/-- `CdnsExporter`: `m_blocks_written` -/
+structure EX where
+  blocksWritten : Nat
+  deriving DecidableEq, Repr
+
+/-- `rotate_output` (repaired): the counter is reset before the encoder rotates, so also when that throws -/
+def EX.rotate (_ : EX) (_threw : Bool) : EX := { blocksWritten := 0 }
+/-- before the repair the reset was skipped by the exception -/
+def EX.rotateOld (e : EX) (threw : Bool) : EX := if threw then e else { blocksWritten := 0 }
+/-- `write_block`: returns whether the file header is written first -/
+def EX.writeBlock (e : EX) : EX × Bool := ({ blocksWritten := e.blocksWritten + 1 }, e.blocksWritten == 0)
+/-- the closing break is written iff a block was written -/
+def EX.writesBreak (e : EX) : Bool := decide (e.blocksWritten > 0)
+
+/-- D17 repaired: after ANY rotation the next block starts with the file header and an output that received no block gets no break -/
+theorem ex_header_after_rotation (e : EX) (threw : Bool) :
+    ((e.rotate threw).writeBlock).2 = true ∧ (e.rotate threw).writesBreak = false := ⟨rfl, rfl⟩
+
+theorem ex_old_lost_header : ∃ e : EX, ((e.rotateOld true).writeBlock).2 = false ∧ (e.rotateOld true).writesBreak = true :=
+  ⟨⟨1⟩, rfl, rfl⟩
+
+
 end CdnsVerif.Props.C16
